@@ -4,13 +4,85 @@ package main
 // values the memory probes and the update experiment need occur: a valid block carrying a v2 storage proof (history
 // proof = a chain index element with a non-empty Merkle proof), a transaction with two siacoin inputs and a siafund
 // transaction (>= 2 non-ephemeral elements in several transactions of one multiproof), a renewal, an expiration, and
-// the v1 counterparts (supplement elements of every kind).  Every step must be accepted by the real code.
+// the v1 counterparts (supplement elements of every kind); v2 blocks that reference ONE accumulator element more than
+// once (two revisions of one contract in two transactions, a revision followed by a renewal, two storage proofs that
+// carry the same chain index element) — the multiproof codec has to restore every reference; and v1 transactions
+// whose signatures cover the transaction field by field (CoveredFields without WholeTransaction: the only path to
+// State.PartialSigHash), alone and followed by v2 blocks.  Every step must be accepted by the real code.  The fixed
+// behaviours run in the same goroutine pool as the drawn behaviours of their shape (the hasher pools are global).
 
 import (
 	"encoding/json"
+	"fmt"
+	"strings"
 
+	"go.sia.tech/core/types"
 	"verif/harness/chain"
 )
+
+// partialMark on the tag of a v1 transaction: the harness replaces its WholeTransaction signatures by signatures that
+// name every field of the transaction in CoveredFields (same semantics, other signature hash function).
+const partialMark = "+partial"
+
+// resignPartial re-signs txn (built and signed by the chain harness) with field-by-field coverage.
+func resignPartial(sim *chain.Sim, txn *types.Transaction) error {
+	seq := func(n int) (out []uint64) {
+		for i := 0; i < n; i++ {
+			out = append(out, uint64(i))
+		}
+		return
+	}
+	cf := types.CoveredFields{SiacoinInputs: seq(len(txn.SiacoinInputs)), SiacoinOutputs: seq(len(txn.SiacoinOutputs)), FileContracts: seq(len(txn.FileContracts)),
+		FileContractRevisions: seq(len(txn.FileContractRevisions)), StorageProofs: seq(len(txn.StorageProofs)), SiafundInputs: seq(len(txn.SiafundInputs)),
+		SiafundOutputs: seq(len(txn.SiafundOutputs)), MinerFees: seq(len(txn.MinerFees)), ArbitraryData: seq(len(txn.ArbitraryData))}
+	if len(txn.Signatures) == 0 {
+		return fmt.Errorf("partial coverage: the transaction has no signature")
+	}
+	for i := range txn.Signatures {
+		sg := &txn.Signatures[i]
+		var uc *types.UnlockConditions
+		for j := range txn.SiacoinInputs {
+			if types.Hash256(txn.SiacoinInputs[j].ParentID) == sg.ParentID {
+				uc = &txn.SiacoinInputs[j].UnlockConditions
+			}
+		}
+		for j := range txn.SiafundInputs {
+			if types.Hash256(txn.SiafundInputs[j].ParentID) == sg.ParentID {
+				uc = &txn.SiafundInputs[j].UnlockConditions
+			}
+		}
+		for j := range txn.FileContractRevisions {
+			if types.Hash256(txn.FileContractRevisions[j].ParentID) == sg.ParentID {
+				uc = &txn.FileContractRevisions[j].UnlockConditions
+			}
+		}
+		if uc == nil || int(sg.PublicKeyIndex) >= len(uc.PublicKeys) || len(uc.PublicKeys[sg.PublicKeyIndex].Key) != 32 {
+			return fmt.Errorf("partial coverage: no key for signature %d", i)
+		}
+		var pk types.PublicKey
+		copy(pk[:], uc.PublicKeys[sg.PublicKeyIndex].Key)
+		name := sim.K.NameOfKey(pk)
+		if name == "" {
+			return fmt.Errorf("partial coverage: unknown key for signature %d", i)
+		}
+		sg.CoveredFields = cf
+		sig := sim.K.SK(name).SignHash(sim.CS.PartialSigHash(*txn, cf))
+		sg.Signature = sig[:]
+	}
+	return nil
+}
+
+// partialSigs counts the v1 signatures of a block that do not cover the whole transaction.
+func partialSigs(b *types.Block) (n int) {
+	for _, t := range b.Transactions {
+		for _, sg := range t.Signatures {
+			if !sg.CoveredFields.WholeTransaction {
+				n++
+			}
+		}
+	}
+	return
+}
 
 type fixedBehaviour struct {
 	name, shape string
@@ -46,9 +118,10 @@ func fixedBehaviours() []fixedBehaviour {
 	}
 	noRen := chain.AbsRen{Auth: "ok", Nc: chain.AbsC2{Null: true}}
 	change := chain.SID{chain.SCO, 1, 0, 1, 0} // the 339950 returned by the formation
-	sfTx := func(ver int) chain.AbsTx {
-		return chain.AbsTx{Ver: ver, Sfi: []chain.AbsSfIn{{ID: sf(1), Claim: "A", Auth: "ok"}}, Sfo: []chain.AbsOut{{Val: 3000, Addr: "B"}, {Val: 4000, Addr: "A"}}, Tag: "sf"}
+	sfTxTagged := func(ver int, tag string) chain.AbsTx {
+		return chain.AbsTx{Ver: ver, Sfi: []chain.AbsSfIn{{ID: sf(1), Claim: "A", Auth: "ok"}}, Sfo: []chain.AbsOut{{Val: 3000, Addr: "B"}, {Val: 4000, Addr: "A"}}, Tag: tag}
 	}
+	sfTx := func(ver int) chain.AbsTx { return sfTxTagged(ver, "sf") }
 	return []fixedBehaviour{
 		{"v2-proof-among-payments", "v2only", []chain.Step{
 			block(form2(2, 4)),
@@ -70,6 +143,40 @@ func fixedBehaviours() []fixedBehaviour {
 			block(chain.AbsTx{Ver: 2, Res: []chain.AbsRes{{Cid: fc2, Kind: "expire", Pf: "ok", Ren: noRen}}, Tag: "expire"},
 				chain.AbsTx{Ver: 2, Sci: in(change, sc(3)), Sco: []chain.AbsOut{{Val: 341149, Addr: "A"}}, Tag: "pay2"}),
 		}},
+		// ---- one accumulator element referenced more than once in a block --------------------------------------------
+		{"v2-two-revisions-of-one-contract", "v2only", []chain.Step{
+			block(form2(3, 5)),
+			block(chain.AbsTx{Ver: 2, Rev: []chain.AbsRev{{Cid: fc2, C: c2JSON(250000, 49, "A", 0, 12, 3, 5, 1), Auth: "ok"}}, Tag: "rev2"},
+				chain.AbsTx{Ver: 2, Rev: []chain.AbsRev{{Cid: fc2, C: c2JSON(249976, 73, "A", 0, 12, 3, 5, 2), Auth: "ok"}}, Tag: "rev2"},
+				chain.AbsTx{Ver: 2, Sci: in(change, sc(3)), Sco: []chain.AbsOut{{Val: 341149, Addr: "A"}}, Tag: "pay2"}),
+		}},
+		{"v2-revision-then-renewal", "v2only", []chain.Step{
+			block(form2(3, 5)),
+			block(chain.AbsTx{Ver: 2, Rev: []chain.AbsRev{{Cid: fc2, C: c2JSON(250000, 49, "A", 0, 12, 3, 5, 1), Auth: "ok"}}, Tag: "rev2"},
+				chain.AbsTx{Ver: 2, Sci: in(change), Sco: []chain.AbsOut{{Val: 142412, Addr: "A"}}, Tag: "renew",
+					Res: []chain.AbsRes{{Cid: fc2, Kind: "renew", Pf: "ok", Ren: chain.AbsRen{Fr: 187494, Fh: 43, Rr: 62506, Hr: 6, Auth: "ok",
+						Nc: chain.AbsC2{R: 250024, H: 25, Ra: "A", Ha: "B", Mh: 19, Coll: 12, Ph: 3, Eh: 5, Cap: 128, Size: 64, Rk: "R", Hk: "H", Auth: "ok"}}}}}),
+		}},
+		{"v2-two-proofs-one-index", "v2only", []chain.Step{
+			block(chain.AbsTx{Ver: 2, Sci: in(sc(1)), Fc: []json.RawMessage{c2JSON(250024, 25, "A", 19, 12, 2, 4, 0), c2JSON(250024, 25, "A", 19, 12, 2, 4, 0)},
+				Sco: []chain.AbsOut{{Val: 79900, Addr: "A"}}, Tag: "form2"}),
+			block(),
+			block(chain.AbsTx{Ver: 2, Res: []chain.AbsRes{{Cid: fc2, Kind: "proof", Pf: "ok", Ren: noRen}}, Tag: "proof"},
+				chain.AbsTx{Ver: 2, Res: []chain.AbsRes{{Cid: chain.SID{chain.FC2, 1, 0, 2, 0}, Kind: "proof", Pf: "ok", Ren: noRen}}, Tag: "proof"}),
+		}},
+		// ---- v1 signatures that cover the transaction field by field ------------------------------------------------
+		{"v1-partial-coverage", "v1only", []chain.Step{
+			block(chain.AbsTx{Ver: 1, Sci: in(sc(1)), Sco: []chain.AbsOut{{Val: 599, Addr: "B"}, {Val: 599391, Addr: "A"}}, Fee: 10, Tag: "pay" + partialMark},
+				sfTxTagged(1, "sf"+partialMark)),
+			block(chain.AbsTx{Ver: 1, Sci: in(sc(2), sc(3)), Sco: []chain.AbsOut{{Val: 257610, Addr: "A"}}, Tag: "pay2" + partialMark}),
+			block(chain.AbsTx{Ver: 1, Sci: in(chain.SID{chain.SCO, 1, 0, 2, 0}), Sco: []chain.AbsOut{{Val: 599391, Addr: "B"}}, Tag: "pay"}),
+		}},
+		{"partial-coverage-then-v2", "mixed", []chain.Step{
+			block(chain.AbsTx{Ver: 1, Sci: in(sc(1)), Sco: []chain.AbsOut{{Val: 599, Addr: "B"}, {Val: 599391, Addr: "A"}}, Fee: 10, Tag: "pay" + partialMark}),
+			block(sfTxTagged(1, "sf"+partialMark)),
+			block(chain.AbsTx{Ver: 1, Sci: in(chain.SID{chain.SCO, 1, 0, 2, 0}), Sco: []chain.AbsOut{{Val: 599391, Addr: "B"}}, Tag: "pay" + partialMark},
+				chain.AbsTx{Ver: 2, Sci: in(sc(2), sc(3)), Sco: []chain.AbsOut{{Val: 257610, Addr: "A"}}, Tag: "pay2"}),
+		}},
 		{"v1-contract", "v1only", []chain.Step{
 			block(chain.AbsTx{Ver: 1, Sci: in(sc(2)), Fc: []json.RawMessage{c1JSON(3, 5, 0, 0)}, Tag: "form1"},
 				chain.AbsTx{Ver: 1, Sci: in(sc(1)), Sco: []chain.AbsOut{{Val: 599, Addr: "B"}, {Val: 599391, Addr: "A"}}, Fee: 10, Tag: "pay"}),
@@ -80,20 +187,14 @@ func fixedBehaviours() []fixedBehaviour {
 	}
 }
 
-// runFixed runs the fixed behaviours like any drawn one; each step must have been accepted.
-func (e *env) runFixed() {
+// fixedFor returns the fixed behaviours of one network shape.
+func fixedFor(shape string) (out []chain.Behaviour) {
 	for _, f := range fixedBehaviours() {
-		p := chain.BaseConfig(chain.Shapes()[f.shape]).P
-		b := &chain.Behaviour{Steps: f.steps, Hash: "fixed-" + f.name}
-		done := e.runBehaviour(f.shape, p, b)
-		e.t.mu.Lock()
-		e.t.fixedRun++
-		if done == len(f.steps) {
-			e.t.fixedOK++
-		}
-		e.t.mu.Unlock()
-		if done != len(f.steps) {
-			e.c.Infra("fixed behaviour %s: only %d of %d steps were built and accepted by the real code", f.name, done, len(f.steps))
+		if f.shape == shape {
+			out = append(out, chain.Behaviour{Steps: f.steps, Hash: "fixed-" + f.name})
 		}
 	}
+	return
 }
+
+func isFixed(b *chain.Behaviour) bool { return strings.HasPrefix(b.Hash, "fixed-") }
